@@ -7,11 +7,14 @@ Mirrors, at the granularity "one outermost backend command plus the task-local c
 * cashews/wrapper/transaction.py   `_transaction : ContextVar`, `TransactionContextDecorator.__aenter__/
   __aexit__` (a nested block joins the outer transaction; the decorator form opens a fresh context object
   per call — repaired D12 — so the *form* of a block has no effect on what it does), `Transaction.commit/rollback`;
-* cashews/backends/transaction.py  `TransactionBackend.set/incr/get/delete/commit/rollback`,
-  `LockTransactionBackend._lock_updates/_unlock_updates`.
+* cashews/backends/transaction.py  `TransactionBackend.set/incr/get/delete/expire/commit/rollback`,
+  `LockTransactionBackend._lock_updates/_unlock_updates` (and its `set/incr/delete/expire`: lock first).
 
 Time is `Nat` in units u = 1/40 s: one harness tick (1/8 s) = 5u, the lock retry step (0.1 s) = 4u.
-Values are integers (the overlay semantics for other values is C03/C04's business).
+Values are integers (the overlay semantics for other values is C03/C04's business).  TTLs are not modelled:
+`expire k` is what it does to *values* — a read-modify-write that buffers the store's current value of `k`
+(under `k`'s lock in locked / serializable mode) so that the commit writes it back with the new TTL; the
+`set_many` commands of one commit (one per TTL group) are one step, as the harness releases them together.
 -/
 namespace CashewsVerif.TxSched
 
@@ -32,6 +35,7 @@ inductive Cmd where
   | incr (k : Nat) (n : Int)
   | get (k : Nat)
   | delete (k : Nat)
+  | expire (k : Nat)           -- `cache.expire(k, ttl)`: re-time the key (the TTL itself is not modelled)
   | sleep (d : Nat)            -- `await asyncio.sleep(d/8)`: a suspension that is not a backend command
   | raise
   | nestIn (f : Form)
@@ -89,6 +93,7 @@ inductive PC where
   | lockSleep (k : Nat) (left : Nat) (wake : Nat) -- in `asyncio.sleep(0.1)` after a failed attempt
   | seedGet (k : Nat) (n : Int)                   -- parked before `backend.get(k, 0)` of `incr k n`
   | readGet (k : Nat)                             -- parked before `backend.get(k)` of `get k`
+  | expGet (k : Nat)                              -- parked before `backend.get(k, _empty)` of `expire k`
   | direct (c : Cmd)                              -- a task outside a transaction parked before the command itself
   | bodySleep (wake : Nat)
   | commitDel                                     -- parked before `delete_many`
@@ -178,10 +183,28 @@ def localCmd (t : Task) : Cmd → Option Task
   | .delete k =>
     -- `_lock_updates(key); local.delete(key); _to_delete.add(key)`
     if t.ctx && holds t k then some { t with ov := t.ov.erase k, del := k :: t.del.filter (· ≠ k) } else none
+  | .expire k =>
+    -- LockTransactionBackend.expire: `_lock_updates(key)` first, whatever follows;
+    -- TransactionBackend.expire: `if key in _to_delete: return`,
+    -- `if local.exists(key): return local.expire(key, timeout)` (same value, new TTL),
+    -- else `value = backend.get(key, _empty)` …
+    if t.ctx && holds t k then
+      if k ∈ t.del then some t
+      else match t.ov.get k with
+        | some _ => some t
+        | none => none
+    else none
   | .sleep _ => none
   | .raise => none
   | .nestIn _ => some { t with depth := t.depth + 1 }   -- `__aenter__` with a current transaction: `_inner = True`
   | .nestOut => some { t with depth := t.depth - 1 }    -- `__aexit__` of an inner block: nothing
+
+/-- `expire` of a key the transaction has neither written nor deleted, after `backend.get(key, _empty)` returned
+`cur`: `if value is _empty: return` / `local.set(key, value, expire=timeout)` — what the backend holds is buffered -/
+def expBuffer (t : Task) (k : Nat) (cur : Option Int) : Task :=
+  match cur with
+  | some v => { t with ov := t.ov.put k v, reads := t.reads ++ [cur] }
+  | none => { t with reads := t.reads ++ [cur] }
 
 /-- park before `set_lock`, or give up at once when the timeout allows no attempt -/
 def lockOrFail (t : Task) (k : Nat) (prog : List Cmd) : Task :=
@@ -201,6 +224,10 @@ def park (now : Nat) (t : Task) (c : Cmd) (rest : List Cmd) : Task :=
       if holds t k then { t with prog := rest, pc := .seedGet k n } else lockOrFail t k (c :: rest)
     else { t with prog := rest, pc := .direct c }
   | .get k => if t.ctx then { t with prog := rest, pc := .readGet k } else { t with prog := rest, pc := .direct c }
+  | .expire k =>
+    if t.ctx then
+      if holds t k then { t with prog := rest, pc := .expGet k } else lockOrFail t k (c :: rest)
+    else { t with prog := rest, pc := .direct c }
   | .nestIn _ => t
   | .nestOut => t
 
@@ -261,6 +288,9 @@ def directStep (now : Nat) (store : Store) (lock : Locks) (t : Task) : Cmd → E
     { store := store, lock := lock, task := settle now t1.prog t1 }
   | .delete k =>
     { store := (Mut.directDel k).apply store, lock := lock, task := settle now t.prog t, muts := [.directDel k] }
+  | .expire _ =>
+    -- Memory.expire: `_set(key, value, timeout)` with the value it holds: no value changes
+    { store := store, lock := lock, task := settle now t.prog t }
   | _ => { store := store, lock := lock, task := t }
 
 /-- the task `tid` is released from its gate: it executes the backend command it was parked before and
@@ -291,6 +321,11 @@ def taskStep (tid now : Nat) (store : Store) (lock : Locks) (t : Task) : Eff :=
     { store := store, lock := lock, task := settle now t1.prog t1 }
   | .readGet k =>
     let t1 := { t with results := t.results ++ [store k], reads := t.reads ++ [store k] }
+    { store := store, lock := lock, task := settle now t1.prog t1 }
+  | .expGet k =>
+    -- `value = await self._backend.get(key, default=_empty); if value is _empty: return`
+    -- `await self._local_cache.set(key, value, expire=timeout)`: the store's current value is buffered
+    let t1 := expBuffer t k (store k)
     { store := store, lock := lock, task := settle now t1.prog t1 }
   | .direct c => directStep now store lock t c
   | .commitDel =>
